@@ -123,8 +123,11 @@ def check_golay_word(args):
     if c != ref_encode(x):
         return "Golay.encode(%#x) = %#x is not the extended Golay code word %#x" % (x, c, ref_encode(x))
     s = g.encode(x, as_string=True)
-    if s != c.to_bytes(3, "big"):
-        return "Golay.encode(%#x, as_string=True) = %s is not the big-endian image of %#x" % (x, s.hex(), c)
+    if not isinstance(s, (bytes, bytearray)) or s != c.to_bytes(3, "big"):
+        return "Golay.encode(%#x, as_string=True) = %r is not the big-endian image of %#x" % (x, s, c)
+    c2 = g.encode(x)
+    if c2 != c or isinstance(c2, (bytes, bytearray)):
+        return "Golay.encode(%#x) after encode(…, as_string=True) on the same object = %r, not the code word %#x" % (x, c2, c)
     if g.decode(s) != g.decode(c) or g.decode(c) != x:
         return "Golay.decode of code word %#x: bytes -> %r, int -> %r, value %#x" % (c, g.decode(s), g.decode(c), x)
     return None
